@@ -33,7 +33,7 @@ var c20Revs = []int64{0, 1, -1, math.MinInt64, math.MaxInt64, 1 << 40, 1888, -18
 
 var c20Calls = []string{"brain.create", "brain.update", "brain.update-nilkv", "brain.delete", "brain.compact", "brain.get", "brain.range", "brain.count", "brain.partitions",
 	"brain.rangestream", "brain.watch", "etcd.range", "etcd.range-count", "etcd.range-partitions", "etcd.txn-create", "etcd.txn-update", "etcd.txn-delete", "etcd.txn-udelete",
-	"etcd.txn-empty", "etcd.txn-nil-ops", "etcd.txn-compact", "etcd.txn-unsupported", "etcd.watch", "etcd.watch-negative", "etcd.watch-cancel-unknown", "etcd.watch-sendfail", "etcd.watch-sendfail-on-event",
+	"etcd.txn-empty", "etcd.txn-nil-ops", "etcd.txn-compact", "etcd.txn-unsupported", "etcd.watch", "etcd.watch-negative", "etcd.watch-cancel-unknown", "etcd.watch-sendfail", "etcd.watch-sendfail-on-event", "etcd.watch-sendfail-once",
 	"etcd.put", "etcd.deleterange", "etcd.compact"}
 
 func genC20(r *rt.Rand, tier string, idx int) *world.Scenario {
@@ -319,6 +319,53 @@ func c20Custom(t *testing.T, sc *world.Scenario, out *Outcome) {
 					case "etcd.compact":
 						_, e := sn.Etcd.Compact(ctx, &pb.CompactionRequest{Revision: rev})
 						return e
+					case "etcd.watch-sendfail-once":
+						// one Send of an event fails, the stream accepts later ones: after a change it could not
+						// deliver the watch must not go on with later changes
+						st := world.NewEtcdWatchStream()
+						st.SendErrOnce = fmt.Errorf("transient transport error")
+						allWritten := false
+						// the refused Send hangs until the later changes are committed (and queued behind it)
+						st.BeforeFail = func() { s.YieldUntil("hostile.send", func() bool { return allWritten }) }
+						s.Go(fmt.Sprintf("hew%d.%d", ci, i), -1, func() {
+							call(desc, func() error { return sn.Etcd.Watch(st) })
+						})
+						wp := fmt.Sprintf("%s/sendonce-%d-%d/", prefix, ci, i)
+						st.Reqs <- &pb.WatchRequest{RequestUnion: &pb.WatchRequest_CreateRequest{CreateRequest: &pb.WatchCreateRequest{Key: []byte(wp), RangeEnd: []byte(wp + "\xff")}}}
+						s.YieldIdle("hostile.watch")
+						var revs []int64
+						for j := 0; j < 4; j++ {
+							if resp, e := sn.Brain.Create(ctx, &proto.CreateRequest{Key: []byte(fmt.Sprintf("%sk%d", wp, j)), Value: []byte("x")}); e == nil && resp.Succeeded {
+								revs = append(revs, int64(resp.Header.GetRevision()))
+							}
+							s.Yield("hostile.watch")
+						}
+						if len(revs) > 0 {
+							target := uint64(revs[len(revs)-1])
+							s.YieldUntil("hostile.watch", func() bool { return sn.B.GetCurrentRevision() >= target })
+						}
+						s.YieldIdle("hostile.watch")
+						allWritten = true
+						s.YieldIdle("hostile.watch")
+						if st.FailedSends > 0 {
+							out.probe("watch-send-failed-once")
+							// what the client got: a prefix of the changes, never something after the one that was lost
+							var got []int64
+							for _, rp := range st.Snapshot() {
+								for _, ev := range rp.Events {
+									got = append(got, ev.Kv.ModRevision)
+								}
+							}
+							for gi, g := range got {
+								if gi >= len(revs) || g != revs[gi] {
+									out.violate(P, "event-delivered-after-a-lost-one", "event-delivered-after-a-lost-one api=etcd",
+										"an etcd watch whose stream refused one event-carrying response went on delivering: the client received changes %v of %v (a change it never got lies before some it did)", got, revs)
+									break
+								}
+							}
+						}
+						st.Cancel()
+						return nil
 					case "etcd.watch-sendfail-on-event":
 						// the watch is created, then the client goes away: pushing the first change fails
 						st := world.NewEtcdWatchStream()
